@@ -88,6 +88,31 @@ def dnf_implies(A, B, budget=4000):
 
 
 
+def guard_dnf(guards):
+    """the guards of one CFG edge as a DNF of fact sets: a false `a && b` (a true `a || b`) is a disjunction, everything else one conjunction"""
+    out = [frozenset()]
+    for cond, rel in guards:
+        t = tag(cond)
+        truth = True if rel in (("eq", 1), ("ne", (0,))) else (False if rel in (("eq", 0), ("ne", (1,))) else None)
+        alts = None
+        if t == "not" and truth is not None:
+            alts = guard_dnf([(cond[1], ("eq", 0 if truth else 1))])
+        elif t == "booland" and truth is False:
+            alts = guard_dnf([(cond[1], ("eq", 0))]) + guard_dnf([(cond[1], ("eq", 1)), (cond[2], ("eq", 0))])
+        elif t == "boolor" and truth is True:
+            alts = guard_dnf([(cond[1], ("eq", 1))]) + guard_dnf([(cond[1], ("eq", 0)), (cond[2], ("eq", 1))])
+        elif t == "booland" and truth is True:
+            alts = guard_dnf([(cond[1], ("eq", 1)), (cond[2], ("eq", 1))])
+        elif t == "boolor" and truth is False:
+            alts = guard_dnf([(cond[1], ("eq", 0)), (cond[2], ("eq", 0))])
+        else:
+            alts = [frozenset(implied_facts([(cond, rel)]))]
+        out = [a | b for a in out for b in alts]
+        if len(out) > 64:
+            return out[:64]
+    return out
+
+
 def block_dnf(ev, res, body, bb, lit=None, cap=48, _memo=None, _back=None):
     """exact condition under which control reaches block `bb` of the evaluated top frame, over forward edges (loops are cut at their back edges): DNF of the
     literals implied by the edge guards; `lit` canonicalises a fact (may return None to drop it).  None when it grows beyond `cap` disjuncts."""
@@ -107,12 +132,13 @@ def block_dnf(ev, res, body, bb, lit=None, cap=48, _memo=None, _back=None):
             return None
         gp = ev.guards(res, p)
         edge = [g for g in ev.guards_edge(res, p, bb) if g not in gp]
-        ls = set()
-        for f in implied_facts(edge):
-            f2 = lit(f) if lit is not None else f
-            if f2 is not None:
-                ls.add(f2)
-        out.extend(c | frozenset(ls) for c in pd)
+        for conj in guard_dnf(edge):
+            ls = set()
+            for f in conj:
+                f2 = lit(f) if lit is not None else f
+                if f2 is not None:
+                    ls.add(f2)
+            out.extend(c | frozenset(ls) for c in pd)
     out = dnf_simplify(out)
     memo[bb] = out if len(out) <= cap else None
     return memo[bb]
